@@ -528,6 +528,43 @@ func runC07(t *simrt.Tape, o Opts) Outcome {
 			}
 			break
 		}
+		// decrypt through a session that has been closed, and through a session that outlives its
+		// factory: the payload or an error (keys it needs may be gone), not a crash
+		if !swept && len(w.Viols) == 0 && len(w.Recs) > 0 {
+			w.Faults.Off = true
+			for _, part := range sortedKeysSess(sess) {
+				se := sess[part]
+				var mine *world.Rec
+				for _, r := range w.Recs {
+					if r.Part == part {
+						mine = r
+					}
+				}
+				if mine == nil {
+					continue
+				}
+				if t.Choose(2, "late.close-what") == 0 {
+					w.CloseSess(se)
+				} else {
+					w.CloseProc(p)
+				}
+				w.Drain()
+				// what follows is sequential use after the close has completed, background tear-down
+				// included (using a session while it is being torn down is misuse, not the subject here)
+				s.Barrier()
+				count(st.Oracle, "decrypt-after-close")
+				out, op := w.Decrypt(se, &mine.DRR)
+				if op.Panic == "" && op.Err == nil && !bytes.Equal(out, mine.Payload) {
+					w.Violate("wrong-plaintext", "wrong-plaintext/after-close", "decrypt through a closed session returned other bytes than the payload")
+				}
+				// and a record whose keys are certainly not cached any more
+				cold := w.Recs[t.Choose(len(w.Recs), "late.rec")]
+				if cold.Part == part {
+					w.Decrypt(se, &cold.DRR)
+				}
+				break
+			}
+		}
 		st.Nontrivial = reached
 		st.Class = fmt.Sprint(keysOf(classes))
 		st.Sample = map[string]any{"corruptions": keysOf(classes), "policy": pol.String(), "swept": swept}
